@@ -22,14 +22,16 @@
                   free), openManyPeers (one stream + Config per peer; server.handle opens a
                   ts stream writer there), newGateway, newFree, newSynchronizer(|leaseholders|)
      WriteReq     Writer.Write -> validator (SeqNum) -> peerGatewayFreeSwitch
-                  (Frame.SplitByHost) -> peerSwitchSender (Frame.SplitByLeaseholder: a peer
-                  receives a request only if the frame has a series for it) / gateway / free
+                  (Frame.SplitByHost) -> peerSwitchSender (Frame.SplitByLeaseholder: every peer
+                  receives its - possibly empty - part) / gateway writer / free writer
      LocalWrite   the leaseholder's ts stream writer processes the request (buffer, or
                   commit when EnableAutoCommit) and, when Sync, sends a response
      WriteAck     synchronizer: counter = nodeCount -> response released (Sync writers only)
      CommitReq    Writer.Commit -> broadcast to every peer, the gateway and the free writer
      LocalCommit  idxWriter.Commit on that leaseholder, response with the commit end
-     CommitAck    synchronizer: counter = nodeCount -> Commit returns
+     LocalCommitFail  the leaseholder refuses the commit (its response carries the error)
+     CommitAck    synchronizer: counter = nodeCount -> Commit returns the response merged over
+                  all leaseholders (first error, max End, conjunction of Authorized)
      CloseWriter  Writer.Close (request stream closed; uncommitted buffers are dropped)
      IterOpen     iterator.Service.Open: validateChannelKeys (free key -> validation error,
                   unknown key -> not found), Batch, one stream per peer + gateway iterator;
@@ -43,7 +45,7 @@
                             the position of index time ts(t), the value derived from (c,t,id)
      local[n][c]        <->  Nodes[n].Storage.TS (cesium) holds channel c's samples;
                             a channel absent from that cesium DB reads as all-zero
-     res                <->  error class of the call: ok | notfound | invalid
+     res                <->  error class of the call: ok | notfound | invalid | error
 
    Pinned beyond the property (drift level, never a verdict):
      - requests of one writer are applied by each leaseholder in FIFO order;
@@ -51,11 +53,12 @@
        inside an existing domain: refusals are C03's subject); writers of a script own
        disjoint channel sets (control hand-over is C05's subject);
      - a frame carries all or none of a group's channels the writer owns (cesium rule);
+     - a data-only writer (data channel without its index) stays inside ONE index domain;
      - the error KIND of a failing open (not found vs validation) beyond "it fails";
-     - Commit's returned End and Write's returned Authorized (the synchronizer forwards
-       the LAST response, not the merged one: observed, the statement does not speak of it).
+     - the VALUES of Commit's End, Write's Authorized and the iterator acks (the iterator
+       synchronizer still forwards the last response's ack): the statement does not speak of them.
 
-   Named deviation (guard constant), a genuine defect this check found and /repo fixed:
+   Named deviation (guard constant), a genuine defect this check found and /repo fixed (650fb4c):
      SkipAbsentPeers  TRUE = writer/switch.go before the fix: peerSwitchSender sent a Write
                   request only to the peers the frame has a series for. A Sync writer then
                   waits for nodeCount responses forever (NoStuckWriter fails), and
@@ -70,7 +73,7 @@
      "drop_part" "ack_first" "count_short" "no_broadcast" "skip_validate" "local_remote"
      "last_response" (the writer synchronizer as written before its fix: it forwarded the LAST
                       response of a cycle, so a leaseholder's error was lost when another
-                      leaseholder answered after it - genuine defect found by this check)
+                      leaseholder answered after it - genuine defect found by this check, fixed bbfba2e)
 
    MayFail = TRUE lets a leaseholder refuse a commit (LocalCommitFail); used by the exhaustive
    runs for AckNeverHidesFailure, FALSE in the generators (on the real code a refusal is reached
